@@ -132,8 +132,59 @@ fn items(tier: Tier) -> &'static Vec<Item> {
                 }
             }
         }
+        // respond() whose body source fails: the request has been answered (however badly);
+        // it must not be answered a second time
+        for per_thread in [false, true] {
+            for (len, after) in [(64usize, 0usize), (64, 10), (3000, 1500)] {
+                for first in [None, Some(slots(false, true)[0].clone())] {
+                    let mut sl = Vec::new();
+                    if let Some(f) = &first {
+                        sl.push(f.clone());
+                    }
+                    sl.push(Slot {
+                        label: format!("get-read0-respond-failing-after-{}-of-{}", after, len),
+                        request: get("/failing"),
+                        plan: ReqPlan { read: ReadPlan::None, finish: Finish::RespondFailingReader { len, after } },
+                        risky: true,
+                    });
+                    sl.push(slots(true, true)[0].clone());
+                    v.push(Item { slots: sl, per_thread, bound: if per_thread { 1 } else { 0 }, withhold_tail: None });
+                }
+            }
+        }
         v
     })
+}
+
+/// For programs with a failing body source the stream after the broken response cannot be
+/// delimited; what the statement still pins down: no second response for that request.
+fn failing_reader_clause(sc: &Scenario, o: &Obs, _r: &tiny_http::verif_rt::core::RunResult) -> Vec<crate::judge::Failure> {
+    let mut f = Vec::new();
+    if !sc.app.plans.iter().any(|p| matches!(p.finish, Finish::RespondFailingReader { .. })) {
+        return f;
+    }
+    let rec = &o.conns[0].received;
+    // status lines: "HTTP/1.x NNN " at the start of the stream or right after CRLF
+    let mut statuses: Vec<u16> = Vec::new();
+    let mut i = 0;
+    while i + 12 <= rec.len() {
+        if &rec[i..i + 7] == b"HTTP/1." && (i == 0 || rec[i - 1] == b'\n') && rec[i + 8] == b' ' {
+            if let Ok(code) = std::str::from_utf8(&rec[i + 9..i + 12]).unwrap_or("").parse::<u16>() {
+                statuses.push(code);
+            }
+        }
+        i += 1;
+    }
+    if statuses.len() > o.reqs.len() || statuses.contains(&500) {
+        f.push(crate::judge::Failure {
+            clause: "answered-twice",
+            desc: format!(
+                "{} requests were delivered and each was answered by respond(), but the client stream carries the status lines {:?}: a request whose response body source failed got a second (automatic) response",
+                o.reqs.len(), statuses
+            ),
+        });
+    }
+    f
 }
 
 fn scenario(it: &Item) -> Scenario {
@@ -168,7 +219,9 @@ fn class_of(sc: &Scenario) -> String {
     let cs = crate::judge::client_stream(sc, 0);
     let chunked_unread = cs.bytes.windows(7).any(|w| w == b"chunked")
         && sc.app.plans.iter().any(|p| !matches!(p.read, ReadPlan::Sizes { limit: None, .. } | ReadPlan::ReadToEnd));
-    let k = if fins.iter().any(|f| matches!(f, Finish::Panic)) {
+    let k = if fins.iter().any(|f| matches!(f, Finish::RespondFailingReader { .. })) {
+        "respond-with-failing-body-source"
+    } else if fins.iter().any(|f| matches!(f, Finish::Panic)) {
         "handler-panics"
     } else if fins.iter().any(|f| matches!(f, Finish::Drop)) {
         "request-dropped"
@@ -209,7 +262,7 @@ impl Check for C06 {
             wall: Duration::from_secs(if tier == Tier::Thorough { 300 } else { 30 }),
         };
         let class = class_of(&sc);
-        let found = explore_runner_scenario(&cfg, acc, &sc, &class, &|_, _, _| vec![]);
+        let found = explore_runner_scenario(&cfg, acc, &sc, &class, &failing_reader_clause);
         acc.nontrivial += 1;
         if !found && it.bound > 0 {
             acc.sample(json!({"program": it.slots.iter().map(|s| s.label.clone()).collect::<Vec<_>>(), "thread_per_request": it.per_thread, "mode": "strict", "bound": it.bound}));
@@ -217,7 +270,7 @@ impl Check for C06 {
     }
     fn rule(&self, tier: Tier) -> String {
         format!(
-            "handler programs for n = 1..3 pipelined requests: request {{GET, HEAD, POST Content-Length 10 / 2000, chunked 2000}} x body read {{none, part, all}} x finish {{respond, into_writer + complete raw response, upgrade (last request), drop, panic while holding the request}}, one handler thread per request or one thread for all (n=3{}: GET/HEAD/Content-Length 2000 x respond/drop/panic); {} programs; schedules: all with at most {} deviations (strict); oracle (reference model): the client stream splits into exactly n final messages in request order with the status each action implies (500 for drop and panic), nothing duplicated or missing, no hang; non-trivial = all",
+            "handler programs for n = 1..3 pipelined requests: request {{GET, HEAD, POST Content-Length 10 / 2000, chunked 2000}} x body read {{none, part, all}} x finish {{respond, into_writer + complete raw response, upgrade (last request), drop, panic while holding the request, respond with a body source that fails after 0/10/1500 bytes}}, one handler thread per request or one thread for all (n=3{}: GET/HEAD/Content-Length 2000 x respond/drop/panic); {} programs; schedules: all with at most {} deviations (strict); oracle (reference model): the client stream splits into exactly n final messages in request order with the status each action implies (500 for drop and panic), nothing duplicated or missing, no hang; non-trivial = all",
             if tier == Tier::Thorough { "" } else { " and n=2 in the quick tier" }, items(tier).len(),
 "2 (n<=2 with a drop/panic), 1 (other threaded programs, n=3 with a drop/panic), 0 (single handler thread)"
         )
@@ -225,6 +278,6 @@ impl Check for C06 {
     fn replay(&self, replay: &Value, acc: &mut Acc) {
         let sc = scenario_from_json(&replay["scenario"]);
         let class = class_of(&sc);
-        replay_runner_scenario(acc, replay, &class, &|_, _, _| vec![]);
+        replay_runner_scenario(acc, replay, &class, &failing_reader_clause);
     }
 }
